@@ -555,14 +555,39 @@ func TestManagerRapid(t *testing.T) {
 			var fwMu sync.Mutex
 			var fwErrs []error
 			fwDone := make(chan struct{})
-			go func() {
-				defer close(fwDone)
-				for e := range fw.Chan() {
-					fwMu.Lock()
-					fwErrs = append(fwErrs, e)
-					fwMu.Unlock()
+			// a reader that is always waiting, or one that only looks at the channel now and then (several
+			// failures may then be pending at once; each must still be delivered)
+			lazyReader := rapid.Bool().Draw(rt, "failureChannelReadLazily")
+			drainFW := func() {
+				if !lazyReader {
+					return
 				}
-			}()
+				for k := 0; k < 64; k++ {
+					vx.Wait()
+					select {
+					case e := <-fw.Chan():
+						fwMu.Lock()
+						fwErrs = append(fwErrs, e)
+						fwMu.Unlock()
+						continue
+					default:
+					}
+					return
+				}
+			}
+			if lazyReader {
+				close(fwDone)
+				vx.Class("managers_with_lazily_read_failure_channel", 1)
+			} else {
+				go func() {
+					defer close(fwDone)
+					for e := range fw.Chan() {
+						fwMu.Lock()
+						fwErrs = append(fwErrs, e)
+						fwMu.Unlock()
+					}
+				}()
+			}
 			var recs []*mgrRec
 			var mws []*waiter
 			everAllRunning := false
@@ -576,8 +601,10 @@ func TestManagerRapid(t *testing.T) {
 					for _, g := range gs {
 						g.releaseAll()
 					}
+					drainFW()
 				}
 				settle()
+				drainFW()
 				fw.Close()
 				<-fwDone
 			})
@@ -708,6 +735,7 @@ func TestManagerRapid(t *testing.T) {
 						fail("batch %d: service %d missing from ServicesByState", bi, i)
 					}
 				}
+				drainFW()
 				fwMu.Lock()
 				nfw := len(fwErrs)
 				for _, e := range fwErrs {
